@@ -5,6 +5,7 @@ package lifecycle
 import (
 	"context"
 	"testing"
+	"time"
 
 	"berty.tech/weshnet/v2/internal/vharness"
 	"berty.tech/weshnet/v2/internal/vsched"
@@ -24,9 +25,17 @@ func (w *c16world) Wait(ctx context.Context, i int) ([]uint64, bool) {
 
 func (w *c16world) Apply(o vsched.NotifyOp) { w.m.UpdateState(State(o.V)) }
 
+// Missed reads the state through the public getter (which takes the manager's lock): at the end of a
+// run a parked thread may hold that lock, so the read is given a moment and abandoned otherwise.
 func (w *c16world) Missed(i int) []uint64 {
-	if w.m.currentState != w.source[i] {
-		return []uint64{0}
+	got := make(chan State, 1)
+	go func() { got <- w.m.GetCurrentState() }()
+	select {
+	case st := <-got:
+		if st != w.source[i] {
+			return []uint64{0}
+		}
+	case <-time.After(500 * time.Millisecond):
 	}
 	return nil
 }
